@@ -54,6 +54,13 @@ type RMapPtr struct {
 	A []*RMapPtr          `json:"a"`
 }
 
+type RComment struct {
+	ID      int64       `json:"id"`
+	Replies []*RComment `json:"replies"`
+}
+
+var c05deepTypes = []reflect.Type{reflect.TypeOf(RList{}), reflect.TypeOf(RComment{})}
+
 var c05recTypes = []reflect.Type{reflect.TypeOf(RNode{}), reflect.TypeOf(RBag{}), reflect.TypeOf(RList{}), reflect.TypeOf(RTree{}), reflect.TypeOf(RMapPtr{})}
 var c05recIR = map[reflect.Type]*gen.T{}
 
@@ -118,7 +125,21 @@ func c05recursive(c *core.Ctx, i int) {
 	}
 	ds := &gen.DataSchema{Hints: map[*refavro.Schema]*gen.Hint{}}
 	names := 0
-	ds.S = c05recSchema(r, ds, rt, 1+r.IntN(4), &names)
+	depth := 1 + r.IntN(4)
+	maxElems := 1 + r.IntN(3)
+	if r.IntN(8) == 0 {
+		// nested far deeper than any fixed allowance (chains only: one successor per level)
+		rt = c05deepTypes[r.IntN(len(c05deepTypes))]
+		t = c05recIR[rt]
+		if t == nil {
+			t = gen.FromReflect(rt)
+			c05recIR[rt] = t
+		}
+		depth = 9 + r.IntN(40)
+		maxElems = 1
+		c.Count("recursive.deep-schemas", 1)
+	}
+	ds.S = c05recSchema(r, ds, rt, depth, &names)
 	label := "recursive: " + rt.Name() + " under " + trunc(ds.S.JSON(), 300)
 	c.Journal(c.CurCase(), label)
 	codec, err := buildLibCodec(ds.S, rt)
@@ -130,7 +151,7 @@ func c05recursive(c *core.Ctx, i int) {
 	}
 	rb := avro.NewReadBuf(nil)
 	for k := 0; k < 4; k++ {
-		d := ds.GenDatum(r, ds.S, gen.DatumOpts{MaxElems: 1 + r.IntN(3)}, nil)
+		d := ds.GenDatum(r, ds.S, gen.DatumOpts{MaxElems: maxElems, Chain: maxElems == 1 && depth >= 9}, nil)
 		enc, err := refavro.Encode(nil, ds.S, d, &gen.RandChooser{R: r, Style: r.IntN(4)})
 		if err != nil {
 			c.Violate("harness", err.Error(), nil)
